@@ -220,12 +220,16 @@ class ExplorerScriptSsbDecompiler:
             # Jump as part of a control structure
             self.write_stmnt(f"jump @label_{label_id};")
 
-    def source_map_add_opcode(self, op_offset: int) -> None:
-        """Has to be called BEFORE writing the opcode."""
+    def source_map_add_opcode(self, op_offset: int, on_current_line: bool = False) -> None:
+        """
+        Has to be called BEFORE writing the opcode.
+        If on_current_line is True, the opcode is written at the end of the current line, not on a new line.
+        """
         assert self.smb is not None
         # TODO: Assumes that all statements start in a new line after indent.
         #       Might need this more flexible.
-        self.smb.add_opcode(op_offset, self._line_number, self.indent * NUMBER_OF_SPACES_PER_INDENT)
+        line_number = self._line_number - 1 if on_current_line else self._line_number
+        self.smb.add_opcode(op_offset, line_number, self.indent * NUMBER_OF_SPACES_PER_INDENT)
 
     def source_map_add_position_mark(self, length: int, param: SsbOpParamPositionMarker) -> None:
         assert self.smb is not None
